@@ -69,9 +69,13 @@ FUNCS = [
     ("src/group.c", "rdsparser_group_parse", "m_group_parse", []),
     ("src/group0.c", "rdsparser_group0_parse", "m_group0_parse", []),
     ("src/group10.c", "rdsparser_group10_parse", "m_group10_parse", []),
+    ("src/string.c", "rdsparser_string_get_available", "m_string_get_available", []),
+    ("src/string.c", "rdsparser_string_clear", "m_string_clear", []),
+    ("src/group2.c", "rdsparser_group2_parse", "m_group2_parse", []),
     ("src/ecc.c", "rdsparser_ecc_lookup", "m_ecc_lookup", []),
     ("src/group1.c", "rdsparser_group1_parse", "m_group1_parse", []),
     ("src/group4.c", "rdsparser_group4_parse", "m_group4_parse", []),
+    ("src/parser.c", "rdsparser_parser_process", "m_parser_process", []),
     ("src/string.c", "rdsparser_string_convert", "m_string_convert_n", ["-DRDSPARSER_DISABLE_UNICODE"]),
     ("src/string.c", "rdsparser_string_update_single", "m_update_single_n", ["-DRDSPARSER_DISABLE_UNICODE"]),
 ]
@@ -92,7 +96,8 @@ for _c, _q in [("rdsparser_group_get_pi", "c_get_pi"), ("rdsparser_group_get_pty
                ("rdsparser_group1a0_get_ecc", "c_get_ecc"), ("rdsparser_group2_get_rt_pos", "c_get_rt_pos"),
                ("rdsparser_group2_get_rt_flag", "c_get_rt_flag"), ("rdsparser_group10a_get_ptyn_pos", "c_get_ptyn_pos")]:
     LEAF_REG[_c] = (_q, [], [], list(_D4), [], False)
-for _c, _q in [("rdsparser_group4a_get_mjd", "c_get_mjd"), ("rdsparser_group4a_get_hour", "c_get_hour"),
+for _c, _q in [("rdsparser_group2_get_rt_pos", "c_get_rt_pos"), ("rdsparser_group2_get_rt_flag", "c_get_rt_flag"),
+               ("rdsparser_group4a_get_mjd", "c_get_mjd"), ("rdsparser_group4a_get_hour", "c_get_hour"),
                ("rdsparser_group4a_get_minute", "c_get_minute"), ("rdsparser_group4a_get_time_offset", "c_get_offset")]:
     LEAF_REG[_c] = (_q, [], [], list(_D4), [], False)
 # rdsparser_ct_init(ct, mjd, hour, minute, offset): result, then the fields of *ct in declaration order
@@ -100,7 +105,7 @@ LEAF_REG["rdsparser_ct_init"] = ("c_ct_init", [("ct", "")], [], ["mjd", "hour", 
                                  ["year", "month", "day", "hour", "minute", "offset"], False)
 # every other source file a call may lead into
 ALL_SOURCES = ["src/af.c", "src/buffer.c", "src/string.c", "src/parser.c", "src/rdsparser.c", "src/group.c",
-               "src/group0.c", "src/group10.c", "src/ecc.c", "src/group1.c", "src/group4.c", "src/ct.c"]
+               "src/group0.c", "src/group10.c", "src/ecc.c", "src/group1.c", "src/group4.c", "src/ct.c", "src/group2.c"]
 # a call through a callback member appends [code; callback; arguments...] to the pseudo-member
 # `events` (the parser pointer itself is not recorded); codes = the model's field_idx
 CALLBACK_CODES = {"callback_pi": 0, "callback_pty": 1, "callback_tp": 2, "callback_ta": 3, "callback_ms": 4,
@@ -462,6 +467,15 @@ def pointer_arg(a, ctx):
             return ("arrref", name)
         if name in ctx.ptrs and ctx.ptrs[name][0] in ("struct", "str"):
             return ctx.ptrs[name]
+    if b["kind"] == "ArraySubscriptExpr" and strip(b["inner"][0])["kind"] == "MemberExpr" \
+            and ("rdsparser_string_t" in a.get("type", {}).get("qualType", "") or "string" in qual(a)):
+        # one of an array of string objects (rds->rt[flag]): index 0 or 1
+        path = member_path(strip(b["inner"][0]), ctx)
+        try:
+            i = const_value(b["inner"][1], ctx)
+            return ("str", "%s__%d__" % (path, i))
+        except Unsupported:
+            return ("strsel", "%s__0__" % path, "%s__1__" % path, "(%s =? 0)" % expr(b["inner"][1], ctx))
     if b["kind"] == "MemberExpr":
         # an array member decaying to a pointer: a string object stored in the struct
         path = member_path(b, ctx)
@@ -493,9 +507,11 @@ def call_by_name(reg, fn, args, ctx):
                 pre = dict(ptrs).get(name)
                 if pre is None:
                     raise Unsupported("pointer parameter %s of %s" % (name, coq))
-                pmap[pre] = what[1]
+                pmap[pre] = (what[1], what[2], what[3]) if what[0] == "strsel" else what[1]
         else:
             sc[name] = expr(a, ctx)
+
+    sel = {}        # callee prefix -> (prefix0, prefix1, condition): the object is chosen at run time
 
     def to_caller(path):
         if path == "events":
@@ -506,24 +522,39 @@ def call_by_name(reg, fn, args, ctx):
                 best = pre
         if best is None:
             raise Unsupported("member %s of %s has no owner" % (path, coq))
+        if isinstance(pmap[best], tuple):
+            sel[best] = pmap[best]
+            return ("sel", pmap[best][0] + path[len(best):], pmap[best][1] + path[len(best):], pmap[best][2])
         return pmap[best] + path[len(best):]
+
+    def rd_in(q):
+        cp = to_caller(q)
+        if isinstance(cp, tuple):
+            return "(if %s then %s else %s)" % (cp[3], ctx.rd(cp[1]), ctx.rd(cp[2]))
+        return ctx.rd(cp)
 
     for q in ins + outs:
         cp = to_caller(q)
         if q in ctx.sh.kinds_of.get(coq, {}):
-            ctx.sh.kinds[cp] = ctx.sh.kinds_of[coq][q]
-    actual = [ctx.rd(to_caller(q)) for q in ins] + [sc[x] for x in scal]
+            for c in (cp[1:3] if isinstance(cp, tuple) else [cp]):
+                ctx.sh.kinds[c] = ctx.sh.kinds_of[coq][q]
+    actual = [rd_in(q) for q in ins] + [sc[x] for x in scal]
     app = "(%s %s)" % (coq, " ".join(actual))
     if not outs:
         return None if void else ctx.let("r", app)
-    names = [ctx.sh.fresh("r")] + [ctx.sh.fresh(to_caller(q)) for q in outs]
-    for q in outs:
-        ctx.sh.count.setdefault(to_caller(q), 1)
+    names = [ctx.sh.fresh("r")] + [ctx.sh.fresh(q.replace("string__", "str_")) for q in outs]
     ctx.lines.append("let '(%s) := %s in" % (", ".join(names), app))
     for q, n in zip(outs, names[1:]):
-        ctx.mem[to_caller(q)] = n
-        if not any(to_caller(q).startswith(l) for l in ctx.sh.locals):
-            ctx.sh.written.add(to_caller(q))
+        cp = to_caller(q)
+        if isinstance(cp, tuple):
+            old0, old1 = ctx.rd(cp[1]), ctx.rd(cp[2])
+            ctx.wr(cp[1], "(if %s then %s else %s)" % (cp[3], n, old0))
+            ctx.wr(cp[2], "(if %s then %s else %s)" % (cp[3], old1, n))
+        else:
+            ctx.sh.count.setdefault(cp, 1)
+            ctx.mem[cp] = n
+            if not any(cp.startswith(l) for l in ctx.sh.locals):
+                ctx.sh.written.add(cp)
     return None if void else names[0]
 
 
@@ -713,7 +744,7 @@ def decl(d, ctx):
                 return
         raise Unsupported("pointer variable %s" % name)
     if init is None:
-        ctx.env.pop(name, None)
+        ctx.env[name] = "0"       # indeterminate: correct code assigns before use
         return
     try:
         if "const" in d.get("type", {}).get("qualType", ""):
@@ -749,12 +780,12 @@ def merge(ctx, cv, t, e, saved):
             ctx.mem[p] = a
 
 
-def for_loop(st, ctx, body_fn):
+def loop_shape(st, ctx):
+    """(var, lo term, hi term, lo const or None, hi const or None, body) of `for (T i = lo; i < hi; i++) body`"""
     init, _cv, cnd, inc, body = st["inner"]
     try:
         d = init["inner"][0]
         var = d["name"]
-        lo = const_value(d["inner"][0], ctx)
         c = cnd
         if c["kind"] != "BinaryOperator" or c["opcode"] != "<":
             raise Unsupported("loop condition")
@@ -763,11 +794,93 @@ def for_loop(st, ctx, body_fn):
             lhs = strip(lhs["inner"][0])
         if lhs["kind"] != "DeclRefExpr" or lhs["referencedDecl"]["name"] != var:
             raise Unsupported("loop condition")
-        hi = const_value(c["inner"][1], ctx)
         if inc["kind"] != "UnaryOperator" or inc["opcode"] != "++" or strip(inc["inner"][0])["referencedDecl"]["name"] != var:
             raise Unsupported("loop increment")
+        lo_node, hi_node = d["inner"][0], c["inner"][1]
     except (KeyError, IndexError, TypeError):
         raise Unsupported("loop shape")
+
+    def cv(n):
+        try:
+            return const_value(n, ctx)
+        except Unsupported:
+            return None
+    return var, lo_node, hi_node, cv(lo_node), cv(hi_node), body
+
+
+def assigned_in(node, acc):
+    """C variables assigned somewhere in a statement (syntactically)"""
+    k = node.get("kind")
+    if (k == "BinaryOperator" and node.get("opcode") == "=") or k == "CompoundAssignOperator" or \
+            (k == "UnaryOperator" and node.get("opcode") in ("++", "--")):
+        t = strip(node["inner"][0])
+        if t.get("kind") == "DeclRefExpr":
+            acc.add(t["referencedDecl"]["name"])
+    for c in node.get("inner", []):
+        if isinstance(c, dict):
+            assigned_in(c, acc)
+
+
+def fold_loop(st, ctx):
+    """a loop with non-constant bounds: fold_left over the index range.  The state is
+    (done, return value, the variables and members the body assigns); an iteration after a
+    `return` inside the body leaves the state alone.  Returns (done name or None, value name)."""
+    var, lo_node, hi_node, _l, _h, body = loop_shape(st, ctx)
+    lo_t, hi_t = expr(lo_node, ctx), expr(hi_node, ctx)
+    jumps = may_return([body])
+    # which variables / members does the body write?  (dry run)
+    saved_written = set(ctx.sh.written)
+    ctx.sh.written = set()
+    d = ctx.fork()
+    d.lines = []
+    d.env[var] = "i_dry"
+    stmts([body], d, [], True, k_ret=lambda c, r: "0", k_end=lambda c: "0")
+    paths = sorted(ctx.sh.written)
+    ctx.sh.written = saved_written | set(paths)
+    av = set()
+    assigned_in(body, av)
+    vars_ = sorted(v for v in av if v in ctx.env and v != var)
+    for p_ in paths:
+        ctx.rd(p_)
+    # the lambda's parameters
+    iv = ctx.sh.fresh("i")
+    st_names = [ctx.sh.fresh("done"), ctx.sh.fresh("rv")] + [ctx.sh.fresh(v) for v in vars_] + [ctx.sh.fresh(p_) for p_ in paths]
+    b = ctx.fork()
+    b.lines = []
+    b.env[var] = iv
+    for v, n in zip(vars_, st_names[2:2 + len(vars_)]):
+        b.env[v] = n
+        b.consts.pop(v, None)
+    for p_, n in zip(paths, st_names[2 + len(vars_):]):
+        b.mem[p_] = n
+
+    def vec(c):
+        return ", ".join([c.env[v] for v in vars_] + [c.mem.get(p_) or c.rd(p_) for p_ in paths])
+
+    def tup(*xs):
+        xs = [x for x in xs if x != ""]
+        return "(" + ", ".join(xs) + ")"
+    body_term = stmts([body], b, [], True, k_ret=lambda c, r: tup("1", r, vec(c)), k_end=lambda c: tup("0", "0", vec(c)))
+    init_vec = ", ".join([ctx.env[v] for v in vars_] + [ctx.rd(p_) for p_ in paths])
+    pat = tup(*st_names)
+    out_names = [ctx.sh.fresh("done"), ctx.sh.fresh("rv")] + [ctx.sh.fresh(v) for v in vars_] + [ctx.sh.fresh(p_) for p_ in paths]
+    ctx.lines.append("let '%s := fold_left (fun '%s %s => if %s =? 1 then %s else\n  %s)\n  (map (fun k_ => %s + Z.of_nat k_) (seq 0 (Z.to_nat (%s - %s)))) %s in" % (
+        tup(*out_names), pat, iv, st_names[0], pat, body_term, lo_t, hi_t, lo_t, tup("0", "0", init_vec)))
+    for v, n in zip(vars_, out_names[2:2 + len(vars_)]):
+        ctx.env[v] = n
+        ctx.consts.pop(v, None)
+    for p_, n in zip(paths, out_names[2 + len(vars_):]):
+        ctx.mem[p_] = n
+    return (out_names[0] if jumps else None), out_names[1]
+
+
+def for_loop(st, ctx, body_fn):
+    var, lo_node, hi_node, lo, hi, body = loop_shape(st, ctx)
+    if lo is None or hi is None:
+        if may_return([body]):
+            raise Unsupported("loop with a jump where no jump can be handled")
+        fold_loop(st, ctx)
+        return
     if may_return([body]) or hi - lo > 64:
         raise Unsupported("loop with a jump or too many iterations")
     for v in range(lo, hi):
@@ -778,7 +891,47 @@ def for_loop(st, ctx, body_fn):
     ctx.env.pop(var, None)
 
 
+def desugar_switch(st):
+    """switch (e) { case K: ...; break; ... [default: ...;] } without fall-through -> if / else if chain"""
+    cnd, body = st["inner"][0], st["inner"][-1]
+    if body.get("kind") != "CompoundStmt":
+        raise Unsupported("switch body")
+    cases, cur = [], None
+    for n in body.get("inner", []):
+        k = n.get("kind")
+        if k in ("CaseStmt", "DefaultStmt"):
+            if cur is not None:
+                raise Unsupported("switch case falling through")
+            inner = n["inner"]
+            label = inner[0] if k == "CaseStmt" else None
+            sub = inner[-1]
+            if sub.get("kind") in ("CaseStmt", "DefaultStmt"):
+                raise Unsupported("stacked case labels")
+            cur = [label, [sub]]
+        elif k == "BreakStmt":
+            if cur is None:
+                raise Unsupported("break outside a case")
+            cases.append(cur)
+            cur = None
+        else:
+            if cur is None:
+                raise Unsupported("statement outside a case")
+            cur[1].append(n)
+    if cur is not None:
+        cases.append(cur)       # the last case may omit its break
+    for _l, b in cases:
+        if may_return(b):
+            raise Unsupported("jump inside a switch case")
+    default = [b for l, b in cases if l is None]
+    chain = {"kind": "CompoundStmt", "inner": default[0]} if default else {"kind": "NullStmt"}
+    for label, b in reversed([c for c in cases if c[0] is not None]):
+        test = {"kind": "BinaryOperator", "opcode": "==", "type": {"qualType": "int"}, "inner": [cnd, label]}
+        chain = {"kind": "IfStmt", "inner": [test, {"kind": "CompoundStmt", "inner": b}, chain]}
+    return chain
+
+
 def straight(nodes, ctx):
+    nodes = [desugar_switch(n) if n.get("kind") == "SwitchStmt" else n for n in nodes]
     for st in nodes:
         k = st["kind"]
         if k == "CompoundStmt":
@@ -812,7 +965,17 @@ def result(ctx, ret, outs, void):
     return comps[0] if len(comps) == 1 else "(%s)" % ", ".join(comps)
 
 
-def stmts(nodes, ctx, outs, void=False):
+def stmts(nodes, ctx, outs, void=False, k_ret=None, k_end=None):
+    """a statement list as one term.  k_ret(ctx, value term) builds the term of a `return`,
+    k_end(ctx) the term of falling off the end (defaults: the function's result tuple)"""
+    if k_ret is None:
+        k_ret = lambda c, r: result(c, r, outs, void)           # noqa: E731
+    if k_end is None:
+        def k_end(c):
+            if void:
+                return result(c, "0", outs, void)
+            raise Unsupported("control reaches the end of a non-void function")
+
     def flush(body):
         out = body
         for l in reversed(ctx.lines):
@@ -820,10 +983,11 @@ def stmts(nodes, ctx, outs, void=False):
         ctx.lines = []
         return out
 
+    nodes = [desugar_switch(n) if n.get("kind") == "SwitchStmt" else n for n in nodes]
     for i, st in enumerate(nodes):
         k = st["kind"]
         if k == "CompoundStmt":
-            return stmts(st.get("inner", []) + nodes[i + 1:], ctx, outs, void)
+            return stmts(st.get("inner", []) + nodes[i + 1:], ctx, outs, void, k_ret, k_end)
         if k == "NullStmt":
             continue
         if k == "DeclStmt":
@@ -831,11 +995,28 @@ def stmts(nodes, ctx, outs, void=False):
                 decl(d, ctx)
             continue
         if k == "ForStmt":
-            for_loop(st, ctx, straight)
-            continue
+            var, lo_node, hi_node, lo, hi, body = loop_shape(st, ctx)
+            if lo is not None and hi is not None and not may_return([body]):
+                for_loop(st, ctx, straight)
+                continue
+            done, rv = fold_loop(st, ctx)
+            if done is None:
+                continue
+            rest = nodes[i + 1:]
+            pending = ctx.lines
+            t = ctx.fork()
+            t.lines = []
+            then_term = k_ret(t, rv)
+            for l in reversed(t.lines):
+                then_term = l + "\n  " + then_term
+            e = ctx.fork()
+            e.lines = []
+            else_term = stmts(rest, e, outs, void, k_ret, k_end)
+            ctx.lines = pending
+            return flush("(if %s =? 1\n   then %s\n   else %s)" % (done, then_term, else_term))
         if k == "ReturnStmt":
             r = expr(st["inner"][0], ctx) if st.get("inner") else "0"
-            return flush(result(ctx, r, outs, void))
+            return flush(k_ret(ctx, r))
         if k == "IfStmt":
             inner = st["inner"]
             cv = ctx.let("c", cond(inner[0], ctx))
@@ -853,16 +1034,14 @@ def stmts(nodes, ctx, outs, void=False):
             pending = ctx.lines
             t = ctx.fork()
             t.lines = []
-            then_term = stmts(then_b + rest, t, outs, void)
+            then_term = stmts(then_b + rest, t, outs, void, k_ret, k_end)
             e = ctx.fork()
             e.lines = []
-            else_term = stmts(else_b + rest, e, outs, void)
+            else_term = stmts(else_b + rest, e, outs, void, k_ret, k_end)
             ctx.lines = pending
             return flush("(if %s\n   then %s\n   else %s)" % (cv, then_term, else_term))
         assign(st, ctx)
-    if void:
-        return flush(result(ctx, "0", outs, void))
-    raise Unsupported("control reaches the end of a non-void function")
+    return flush(k_end(ctx))
 
 
 # ---------------------------------------------------------------- driver
